@@ -2,7 +2,7 @@
 import numpy as np
 from hypothesis import strategies as st
 
-from checks.common import S, Raised, as_layout, call, perm_from_noise, polygon_is_convex_ccw
+from checks.common import S, Raised, as_layout, call, perm_from_noise, points_form_relation, polygon_is_convex_ccw
 from gen import curved, points, zoo
 from gen import poly as gp
 from harness.runner import Clause
@@ -72,6 +72,7 @@ def _finish(rec, shape, P3, P2, kinds, want, dist, size, sig, case, sigfn=None):
         gp_ = call(shape.is_inside, P3[p].copy())
         okp = not isinstance(gp_, Raised) and np.asarray(gp_).shape == (n,) and np.array_equal(np.asarray(gp_)[safe[p]], got[p][safe[p]])
         rec.check(okp, "permuted_batch", sig)
+    points_form_relation(rec, shape, P3, got, safe, dist, size, sig, case.get("single", 0) // 4, planar=True)
     near = bool(np.any(safe & (dist < 0.1 * size)))
     rec.label("near_boundary" if near else None, "aligned" if np.any(kinds == 2) else None, "batch%d" % n)
     return near or bool(np.any(kinds == 2))
